@@ -5,6 +5,8 @@ StructLeaves == {"H1", "H2", "P"}
 HeadLeaves == {"H1", "H2", "H3", "H4", "H5", "H6", "P"}
 AllConts == {"Q", "BL", "OL"}
 NoConts == {}
+ItemLeavesQ == {"P", "Tbl", "Code", "H2"}
+ListQuoteQ == {"BL", "Q"}
 ItemLeaves == {"P", "Tbl", "Code"}
 EmptyItemLeaves == {"P", "Code", "EI"}
 ListQuote == {"BL"}
